@@ -36,7 +36,8 @@ impl Tier {
     }
     pub fn wall_cap(self) -> Duration {
         match self {
-            Tier::Quick => Duration::from_secs(50),
+            // VERIF_QUICK_WALL (seconds) is for the self-test only, which runs on a loaded machine
+            Tier::Quick => Duration::from_secs(std::env::var("VERIF_QUICK_WALL").ok().and_then(|s| s.parse().ok()).unwrap_or(50)),
             Tier::Thorough => Duration::from_secs(20 * 60),
         }
     }
